@@ -7,6 +7,8 @@ Driver section for C18.
 `mode=direct`: a level list built table by table, real `Compactor.Compact` steps on it, flush arrivals between the
 computation and the application of a change set. Lines are `op ## impl-output`.
 
+* `w i put k v` / `load`      mode=ckpt: writes to source databases; `load` = the level list `LoadCheckpointList`
+                              built from their checkpoints (dump taken from the implementation)
 * `tbl l run` / `flush run`   add a table (both to the model of the real list and to the never-compacted reference)
 * `compact`                   impl: `o=<few><amp>/<met…>/<over…> none|cs L<l> rm=<ids> add=<runs> cur=<cursor>`;
                               echoed; the model's own `compact` runs with these oracle answers
@@ -97,6 +99,15 @@ def field (pfx : String) (ws : List String) : Option String :=
 
 def stepDirect (st : St) (op hint : List String) : St × String :=
   match op with
+  | "w" :: _ => (st, "ok")
+  | ["load"] =>
+    -- the composite level list loaded from several real checkpoints: taken from the implementation's dump
+    match hint with
+    | [d] =>
+      let real := parseLayout d
+      let next := (real.flatten.map (fun t => t.id + 1)).foldl max 0
+      ({ st with L := real, ref := real, nextId := next, refNext := next }, d)
+    | _ => (st, "bad-hint")
   | ["tbl", l, r] => (addTbl st (natOr l) (Driver.C07.parseRun r), "ok")
   | ["flush", r] => (addTbl st 0 (Driver.C07.parseRun r), "ok")
   | ["compact"] =>
@@ -146,9 +157,10 @@ def stepDirect (st : St) (op hint : List String) : St × String :=
       let r3 := safeCS a.atCompute c.rm c.lvl c.add
       let r4 := safeCS a.atApply c.rm c.lvl c.add
       let r5 := decide (LayoutValid a.atApply)
-      (st, if r1 && r2 && r3 && r4 && r5 then "safe" else
+      let r6 := decide (L0KeyAgeOrdered a.atCompute) && decide (L0KeyAgeOrdered a.atApply)
+      (st, if r1 && r2 && r3 && r4 && r5 && r6 then "safe" else
         "not-safe family@compute=" ++ toString r1 ++ " family@apply=" ++ toString r2 ++ " test@compute=" ++ toString r3 ++
-          " test@apply=" ++ toString r4 ++ " validBefore=" ++ toString r5)
+          " test@apply=" ++ toString r4 ++ " validBefore=" ++ toString r5 ++ " keyAge=" ++ toString r6)
   | ["pick"] => (st, st.predicted)
   | ["layout"] => (st, showLayout st.L)
   | _ => (st, "bad-op")
